@@ -195,10 +195,11 @@ pub fn step(w: &mut Option<World>, line: &str) -> (String, String) {
                     let stored = w.engine.cold_tier().fetch_document(id).unwrap_or_default();
                     (
                         format!(
-                            "insert id={} stored={} m={} accept=1",
+                            "insert id={} stored={} m={} accept=1 nums={}",
                             id,
                             show_vec(&stored),
-                            show_meta(&m)
+                            show_meta(&m),
+                            crate::store::nums_of(m.values())
                         ),
                         "ok".into(),
                     )
@@ -237,8 +238,9 @@ pub fn step(w: &mut Option<World>, line: &str) -> (String, String) {
             else {
                 return bad();
             };
+            let nums = crate::store::nums_of(m.values());
             match w.engine.update_metadata(id, m, mg) {
-                Ok(b) => (strip_op(line), show_bool(b).into()),
+                Ok(b) => (format!("{} nums={}", strip_op(line), nums), show_bool(b).into()),
                 Err(e) => (strip_op(line), format!("err:{:#}", e)),
             }
         }
@@ -285,6 +287,8 @@ pub fn step(w: &mut Option<World>, line: &str) -> (String, String) {
                 .map(|(l, _f, _, _)| l)
                 .unwrap_or(0);
             let mut ann = vec![];
+            let all_vals: Vec<String> = metas.iter().flat_map(|(_, m)| m.values().cloned()).collect();
+            let bl_nums = crate::store::nums_of(all_vals.iter());
             for (id, m) in metas {
                 let delta = ver(w, id) - before[&id];
                 if delta == occ[&id] {
@@ -298,8 +302,9 @@ pub fn step(w: &mut Option<World>, line: &str) -> (String, String) {
             }
             (
                 format!(
-                    "bulk_load docs={}",
-                    if ann.is_empty() { "-".to_string() } else { ann.join("/") }
+                    "bulk_load docs={} nums={}",
+                    if ann.is_empty() { "-".to_string() } else { ann.join("/") },
+                    bl_nums
                 ),
                 format!("loaded={}", loaded),
             )
@@ -458,15 +463,28 @@ pub fn step(w: &mut Option<World>, line: &str) -> (String, String) {
                     .insert_with_coherence(id, v.clone(), m.clone(), tok);
                 (
                     format!(
-                        "poke_hot id={} v={} m={} ver={} dig={}",
+                        "poke_hot id={} v={} m={} ver={} dig={} nums={}",
                         id,
                         show_vec(&v),
                         show_meta(&m),
                         ver,
-                        show_vec(&dv)
+                        show_vec(&dv),
+                        crate::store::nums_of(m.values())
                     ),
                     "ok".into(),
                 )
+            }
+        }
+        "delete_by_filter" => {
+            let Some(f) = field(&fs, "f") else { return bad() };
+            let mut strings = vec![];
+            let Some(flt) = crate::store::filter_from_field(f, &mut strings) else {
+                return (strip_op(line), "bad-op:filter".into());
+            };
+            let nums = crate::store::nums_of(strings.iter());
+            match w.engine.batch_delete_by_metadata_filter(&flt) {
+                Ok(n) => (format!("delete_by_filter f={} nums={}", f, nums), n.to_string()),
+                Err(e) => (strip_op(line), format!("err:{:#}", e)),
             }
         }
         "train" => {
